@@ -22,6 +22,7 @@ type travelerFreshness struct {
 	MarkElemsNew bool // … and the elements it points to are new copies
 	PathFresh    bool // the Path slice of the result has its own backing array
 	CurrentFresh bool // Current is a new element (not the receiver's pointer)
+	SignalKept   bool // the result's Signal is the receiver's Signal
 	Problems     []string
 }
 
@@ -87,9 +88,51 @@ func constructorOwnership(p *core.Prog, fi *core.FuncInfo) travelerFreshness {
 		}
 		return true
 	})
+	// … or a traveler obtained from a helper method of the receiver (o := t.derive(n)),
+	// whose own analysis gives the starting point
+	var base *travelerFreshness
+	if result == nil {
+		ast.Inspect(fi.Decl.Body, func(n ast.Node) bool {
+			as, ok := n.(*ast.AssignStmt)
+			if !ok || len(as.Lhs) != 1 || len(as.Rhs) != 1 || result != nil {
+				return true
+			}
+			c, ok := ast.Unparen(as.Rhs[0]).(*ast.CallExpr)
+			if !ok {
+				return true
+			}
+			sel, ok := c.Fun.(*ast.SelectorExpr)
+			if !ok || !baseIsRecv(sel.X) {
+				return true
+			}
+			fn := core.CalleeFunc(info, c)
+			if fn == nil || fn == fi.Obj {
+				return true
+			}
+			hfi := p.Info(fn)
+			if hfi == nil || hfi.Decl.Body == nil || hfi.Pkg != fi.Pkg {
+				return true
+			}
+			if rt := fn.Type().(*types.Signature).Results(); rt.Len() != 1 || !strings.Contains(rt.At(0).Type().String(), "BaseTraveler") {
+				return true
+			}
+			h := constructorOwnership(p, hfi)
+			base = &h
+			result = defOrUse(info, as.Lhs[0])
+			return true
+		})
+	}
 	if result == nil {
 		tf.Problems = append(tf.Problems, "the constructor does not build a new BaseTraveler value")
 		return tf
+	}
+	if base != nil {
+		for _, pr := range base.Problems {
+			if !strings.HasPrefix(pr, "the result's") {
+				tf.Problems = append(tf.Problems, "helper: "+pr)
+			}
+		}
+		lit = &ast.CompositeLit{}
 	}
 	freshExpr := func(e ast.Expr) bool {
 		switch x := ast.Unparen(e).(type) {
@@ -111,6 +154,14 @@ func constructorOwnership(p *core.Prog, fi *core.FuncInfo) travelerFreshness {
 	tf.MarksFresh = fields["Marks"] != nil && freshExpr(fields["Marks"])
 	tf.PathFresh = fields["Path"] != nil && freshExpr(fields["Path"])
 	tf.MarkElemsNew = false
+	isRecvSignal := func(e ast.Expr) bool {
+		sel, ok := ast.Unparen(e).(*ast.SelectorExpr)
+		return ok && sel.Sel.Name == "Signal" && baseIsRecv(sel.X)
+	}
+	tf.SignalKept = fields["Signal"] != nil && isRecvSignal(fields["Signal"])
+	if base != nil {
+		tf.MarksFresh, tf.PathFresh, tf.SignalKept = base.MarksFresh, base.PathFresh, base.SignalKept
+	}
 	ast.Inspect(fi.Decl.Body, func(n ast.Node) bool {
 		as, ok := n.(*ast.AssignStmt)
 		if !ok {
@@ -139,6 +190,8 @@ func constructorOwnership(p *core.Prog, fi *core.FuncInfo) travelerFreshness {
 					}
 				case "Current":
 					tf.CurrentFresh = freshElementExpr(p, info, r, 0)
+				case "Signal":
+					tf.SignalKept = isRecvSignal(r)
 				}
 			}
 			// o.Marks[k] = &DataElement{…}  (new copies of the mark elements)
